@@ -410,7 +410,16 @@ def run_real(M, links, proc=None):
             and sorted(map(sorted, M0['edges'])) == sorted(map(sorted, M['edges'])))
     if not same:
         raise tlc.MachineryError('projection of a built molecule differs from its description: %s\n%s' % (_canon(M), _canon(M0)))
-    events = R.record_run(mol, ljson, ATTR_KEYS, META_KEYS, UNIT_PM, seg_len=None, with_before=True, proc=proc)
+    decoy = None
+    if proc is not None:
+        # the shared processor sees `mol` as the SECOND molecule of a system; the first one is the same molecule with the
+        # molecule-level attribute the link pool tests ('cter') the other way round
+        decoy = mol.copy()
+        if 'cter' in decoy.meta:
+            del decoy.meta['cter']
+        else:
+            decoy.meta['cter'] = 'yes'
+    events = R.record_run(mol, ljson, ATTR_KEYS, META_KEYS, UNIT_PM, seg_len=None, with_before=True, proc=proc, decoy=decoy)
     assert len(events) == 1
     return events[0]
 
